@@ -1190,3 +1190,37 @@ Proof.
   - apply zset_inv_members_sorted; exact I.
   - intros [m sc]. rewrite H. apply zset_inv_dict_members; exact I.
 Qed.
+
+(* ================================================================== logarithmic height *)
+Fixpoint nodes (t : tree) : Z :=
+  match t with Leaf => 0 | Node l _ _ _ r => nodes l + nodes r + 1 end.
+
+Lemma nodes_elems t : nodes t = zlength (elems t).
+Proof.
+  induction t as [|l IHl s ns h r IHr]; [reflexivity|].
+  cbn [nodes elems]. rewrite zlength_app. unfold zlength in *. cbn [List.length]. lia.
+Qed.
+
+(* an AVL tree of (stored = real) height h has at least 2^(h/2) - 1 nodes: h <= 2*log2(n+1) + 1 *)
+Lemma avl_height_log t : avl t -> 2 ^ (ht t / 2) <= nodes t + 1.
+Proof.
+  induction t as [|l IHl s ns h r IHr]; intros A.
+  - cbn. lia.
+  - pose proof (avl_node_pos _ _ _ _ _ A) as Hpos.
+    cbn [avl] in A. destruct A as (Al & Ar & Eh & Hb).
+    specialize (IHl Al). specialize (IHr Ar).
+    pose proof (avl_ht_nonneg l Al) as Nl. pose proof (avl_ht_nonneg r Ar) as Nr.
+    cbn [ht nodes].
+    destruct (Z.eq_dec h 1) as [->|N1].
+    + change (1 / 2) with 0. cbn.
+      assert (0 <= nodes l) by (rewrite nodes_elems; apply zlength_nonneg).
+      assert (0 <= nodes r) by (rewrite nodes_elems; apply zlength_nonneg). lia.
+    + assert (E : h / 2 = (h - 2) / 2 + 1).
+      { replace h with ((h - 2) + 1 * 2) at 1 by lia. rewrite Z.div_add by lia. reflexivity. }
+      rewrite E, Z.pow_add_r by (try apply Z.div_pos; lia). change (2 ^ 1) with 2.
+      assert (Ml : 2 ^ ((h - 2) / 2) <= 2 ^ (ht l / 2)).
+      { apply Z.pow_le_mono_r; [lia|]. apply Z.div_le_mono; lia. }
+      assert (Mr : 2 ^ ((h - 2) / 2) <= 2 ^ (ht r / 2)).
+      { apply Z.pow_le_mono_r; [lia|]. apply Z.div_le_mono; lia. }
+      lia.
+Qed.
